@@ -85,6 +85,12 @@ CLAIMED = {
                      "exactly the nodes whose strong count reaches zero, and after all objects are dropped exactly the nodes ever held are released (cycles, self-loops, "
                      "still-connected structures included); adjacency changes never affect ownership. Validated by drop-logging payloads on all four flavours after every step.",
                 tech="Coq proof: invariant over ownership histories + differential correspondence with drop-counting node values", ref="DESIGN.md §5 C19"),
+    "C20": dict(text="Theorems (coq/props/C20.v) for ARBITRARY heap-changing callbacks: every edge an edge loop or traversal yields is an entry of the current heap at that moment; "
+                     "backtracking never panics; operations run from inside a closure keep the mirror invariant and never panic; an edge loop terminates once the closure stops "
+                     "lengthening the walked list and a traversal terminates when the closure adds neither nodes nor edges (fuel_bound suffices). That the implementation's "
+                     "iterators hold no borrow/lock across the body is checked by the correspondence: every single operation injected at every invocation index of every loop "
+                     "kind on small graphs, all four flavours, RefCell panics / lock probe (guard gdsl_verif) / watchdog.",
+                tech="Coq proof: preservation lemma family for the machines under arbitrary callbacks + instrumented-log erasure + differential correspondence with scripted closures", ref="DESIGN.md §5 C20"),
 }
 
 PENDING = {
